@@ -62,7 +62,7 @@ fn m_record(variant: u8, x: &Enr) -> Option<Enr> {
 /* event codes ------------------------------------------------------------------------ */
 // 0x01: MsgAs      claim (0 X, 1 M) << 8 | src (0 addr_M, 1 addr_X)
 // 0x02: Handshake  challenge idx << 16 | claim << 12 | record << 8 | sig
-// 0x03: Way        active-request idx << 8 | src (0 the request's destination, 1 addr_M)
+// 0x03: Way        active-request idx << 8 | src (0 the request's destination, 1 addr_M, 2 destination IP with another port)
 // 0x04: Replay     log idx << 8 | src (0 original, 1 addr_M)
 // 0x05: Answer     shape   (M answers V's oldest request to M)
 // 0x06: Late       more than a challenge lifetime passes
@@ -144,6 +144,7 @@ impl Driver for Attack {
                 for (ai, _a) in canon_requests(w).iter().enumerate() {
                     out.push((Ev::Ext(code(3, (ai as u32) << 8)), 1));
                     out.push((Ev::Ext(code(3, (ai as u32) << 8 | 1)), 1));
+                    out.push((Ev::Ext(code(3, (ai as u32) << 8 | 2)), 1));
                 }
             }
         }
@@ -162,7 +163,7 @@ impl Driver for Attack {
             let has_session = s.sessions.iter().any(|x| x.addr.socket_addr == m_addr());
             let has_req = s.active_requests.iter().any(|a| a.addr.socket_addr == m_addr());
             if has_session && has_req {
-                for shape in 0..3u32 {
+                for shape in 0..6u32 {
                     out.push((Ev::Ext(code(5, shape)), 1));
                 }
             }
@@ -233,7 +234,12 @@ impl Driver for Attack {
                         Some(a) => a.clone(),
                         None => mc::machinery("attack: request index out of range (replay divergence)"),
                     };
-                    let src = if arg & 0xf == 0 { a.addr.socket_addr } else { m_addr() };
+                    let src = match arg & 0xf {
+                        0 => a.addr.socket_addr,
+                        1 => m_addr(),
+                        // the request's destination IP, another port
+                        _ => SocketAddr::new(a.addr.socket_addr.ip(), a.addr.socket_addr.port() + 1),
+                    };
                     let mut idn = [0u8; 16];
                     idn[0] = w.scratch.len() as u8 + 1;
                     idn[15] = 0x5a;
@@ -258,7 +264,12 @@ impl Driver for Attack {
                     let sess = s.sessions.iter().find(|x| x.addr.socket_addr == m_addr()).cloned();
                     let req = canon_requests(w).into_iter().find(|a| a.addr.socket_addr == m_addr());
                     if let (Some(sess), Some(req)) = (sess, req) {
+                        let x_rec = w.nodes[X].enr.clone();
                         let body = match (&req.body, arg) {
+                            // NODES carrying X's genuine record / M's own record / M's record with X's address
+                            (_, 3) => v::ResponseBody::Nodes { total: 1, nodes: vec![x_rec.clone()] },
+                            (_, 4) => v::ResponseBody::Nodes { total: 1, nodes: vec![m_record(1, &x_rec).unwrap()] },
+                            (_, 5) => v::ResponseBody::Nodes { total: 1, nodes: vec![m_record(3, &x_rec).unwrap()] },
                             (_, 2) => v::ResponseBody::Talk { response: vec![9] }, // wrong type / garbage
                             (v::RequestBody::FindNode { .. }, 1) | (_, 1) => v::ResponseBody::Nodes { total: 3, nodes: vec![] },
                             (v::RequestBody::Ping { .. }, _) => v::ResponseBody::Pong { enr_seq: 1, ip: w.nodes[V].addr.ip(), port: 9000u16.try_into().unwrap() },
@@ -453,6 +464,14 @@ pub fn explore(prop: &str, thorough: bool, budget_s: f64, k_max: u32) -> (mc::St
             samples.push(json!({"world":name,"history":s}));
         }
         for mut v in vio {
+            // C02 reads the attribution clause of the same oracle: a request / response handed to
+            // the application as coming from P that P's side never encrypted
+            let also: Vec<String> = v.replay["also"].as_array().map(|a| a.iter().filter_map(|x| x.as_str().map(|s| s.to_string())).collect()).unwrap_or_default();
+            let attributed = also.iter().chain(std::iter::once(&v.key)).find(|k| k.starts_with("C01:attributed-without-proof:Request") || k.starts_with("C01:attributed-without-proof:Response")).cloned();
+            if let (true, Some(k)) = (prop == "C02", attributed) {
+                v.key = k.replace("C01:attributed-without-proof", "C02:forged-attribution");
+                v.clause = "every request or response handed to the application as coming from peer P was encrypted by P's side under keys of a handshake P completed with this node".into();
+            }
             if v.key.starts_with(&format!("{prop}:")) || v.key.starts_with("panic:") {
                 v.replay["workload"] = json!(name);
                 v.replay["driver"] = json!("attack");
